@@ -49,6 +49,12 @@ def callee_name(call):
     return None
 
 
+def callee_text(call):
+    """rendered callee expression (works for indirect calls: 'gs->gs_fetch_addr', '_cffi_exports[13]')"""
+    ks = kids(call)
+    return render(ks[0]) if ks else ''
+
+
 def call_args(call):
     return kids(call)[1:]
 
